@@ -203,6 +203,21 @@ def check_gate(ck, ex):
 
         return T().visit(copy.deepcopy(e))
 
+    def scalars(e):
+        """module-/class-level scalar constants (a hoisted setting key, a hoisted method name) spelled out"""
+        locals_ = set(q.local_names(ex.node))
+
+        class T(ast.NodeTransformer):
+            def visit_Name(self, node):
+                if node.id not in locals_ and isinstance(node.ctx, ast.Load):
+                    try:
+                        return ast.copy_location(ast.Constant(value=scalar_const(ex.module, ex.cls, node)), node)
+                    except KeyError:
+                        pass
+                return node
+
+        return T().visit(e)
+
     def case_folded(e):
         """``self.request.method.lower()/.upper()`` -> pseudo variables so the predicate stays evaluable."""
         import copy
@@ -236,7 +251,7 @@ def check_gate(ck, ex):
                 if known is not None and known != (kind == "true"):
                     return None
                 return (checked, methods, setting, frozenset({(k, v) for k, v in fl if k != n.ast.id} | {(n.ast.id, kind == "true")}))
-            e = alias_free(n)
+            e = scalars(alias_free(n))
             if is_setting_test(e):
                 recognised_tests.add(n.id)
                 setting = kind == "true"
